@@ -427,6 +427,8 @@ func c13Pipes() []c13Pipe {
 		// digit strings are DECIMAL, leading zeros included; a base prefix or an underscore makes a string no number
 		{"zero-padded digits to int", "pad | double", "20", ""}, {"zero-padded 08 to int", "pad8 | double", "16", ""}, {"zero-padded literal to int", `double("010")`, "20", ""},
 		{"zero-padded digits as second argument", "n | add(pad)", "17", ""}, {"hex-looking string is no number", "hexs | double", "", "double"}, {"underscored string is no number", "under | double", "", "double"},
+		// a name that no data defines is nil - also when a registered function happens to be called like it
+		{"textonly: undefined name spelled like a registered function is nil", "double == nil", "true", ""}, {"textonly: undefined name spelled like a registered function, in a ternary", "yesno == nil ? 'none' : 'some'", "none", ""},
 		{"quoted double", `s | repeat("2")`, "hellohello", ""}, {"direct call", "double(n)", "14", ""}, {"direct call 2 args", "add(n, m)", "10", ""}, {"direct then pipe", "double(n) | add(1)", "15", ""},
 		{"uint8 param", "m | u8", "4", ""},
 		// quoted arguments are string literals: the text between the quotes, also when it spells a variable name, a number, a boolean, or nothing
